@@ -52,7 +52,11 @@ type Case struct {
 	Entry string  `json:"entry"` // xml | post | artifact
 	G     Genuine `json:"g"`
 	G2    bool    `json:"g2,omitempty"` // a second captured genuine message is available for splicing
-	Ops   []Op    `json:"ops"`
+	// Warm: the SAME ServiceProvider value first processes the untransformed genuine message(s)
+	// (as a long-running SP would have), then the attacker's document - nothing remembered from
+	// an earlier, valid message may make a later one acceptable.
+	Warm bool `json:"warm,omitempty"`
+	Ops  []Op `json:"ops"`
 }
 
 const evil = "EVIL"
@@ -807,6 +811,14 @@ func check(c Case) pbt.Result {
 		}
 	}
 	truth := truthSet(&c, specs)
+	var warmDocs [][]byte
+	if c.Warm {
+		// serialise the untouched genuine documents before the attack mutates the trees
+		warmDocs = append(warmDocs, forge.Bytes(root.Copy()))
+		if at.second != nil {
+			warmDocs = append(warmDocs, forge.Bytes(at.second.Copy()))
+		}
+	}
 	for _, op := range c.Ops {
 		func() {
 			defer func() {
@@ -820,6 +832,13 @@ func check(c Case) pbt.Result {
 	doc := forge.Bytes(at.root)
 
 	sp := spkit.NewSP(spkit.Config{Trust: c.Trust})
+	for i, wd := range warmDocs {
+		if i == 0 && c.Entry == "artifact" {
+			_ = spkit.ParseArtifactXML(sp, wd, []string{"id-req"}, "id-artreq", spkit.SPACS)
+		} else {
+			_ = spkit.ParseXML(sp, wd, []string{"id-req"}, spkit.SPACS)
+		}
+	}
 	var o spkit.Outcome
 	switch c.Entry {
 	case "post":
@@ -969,6 +988,7 @@ func gen(t *rapid.T) Case {
 		Trust: rapid.SampledFrom(spkit.Trusts).Draw(t, "trust"),
 		Entry: rapid.SampledFrom([]string{"xml", "xml", "post", "artifact"}).Draw(t, "entry"),
 		G2:    rapid.IntRange(0, 2).Draw(t, "g2") == 0,
+		Warm:  rapid.IntRange(0, 2).Draw(t, "warm") == 0,
 	}
 	c.G = genGenuine(t, c.Entry)
 	if (c.Trust == "fp256" || c.Trust == "fp512") && c.G.KeyInfo == "none" {
@@ -1006,7 +1026,7 @@ func enumXSWGrid(tier string, emit func(Case)) {
 							for _, id := range []string{"same-id", "new-id"} {
 								for idx := 0; idx < g.NAssert; idx++ {
 									for _, tail := range []string{"", "encrypt", "evilize-all"} {
-										c := Case{Trust: trust, Entry: entry, G: g}
+										c := Case{Trust: trust, Entry: entry, G: g, Warm: id == "same-id" && tail == ""}
 										c.G.AsrtSigner = append([]string{}, g.AsrtSigner...)
 										c.G.Encrypted = append([]bool{}, g.Encrypted...)
 										c.Ops = []Op{{Kind: "xsw", I: idx, Mode: target, Where: where, Sig: sig, Key: id}}
